@@ -27,6 +27,7 @@ prop(
         # whole-stack confirmation: hostile frames injected through hook H3 into an honest server's 1-RTT packets,
         # processed by the client's real qconnection dispatch (space.rs); error kind + process-wide alloc/CPU budget
         dict(name="l2-inject", crate="l2", sub="c04", shards={Q: 4, T: 4}, timeout=900),
+        dict(name="asan", kind="asan", crate="l2", sub="c04", tiers=(T,), timeout=5400, mandatory=False),
     ],
     floors={
         Q: {"probes_delivered": 12, "probes_with_prescribed_error": 10, "probes": 1500, "distinct": 1000, "ramps_fitted": 70, "outcome.error": 600, "outcome.accepted": 600, "sets.clauses": 60},
